@@ -1,6 +1,10 @@
 package plans
 
 import (
+	"fmt"
+	"github.com/freeconf/yang/node"
+	"github.com/freeconf/yang/nodeutil"
+	"github.com/freeconf/yang/parser"
 	"math/rand"
 	"strings"
 
@@ -48,7 +52,21 @@ func pick(r *rand.Rand, xs [][]string, n int) [][]string {
 // withValue returns vocab values that make trim meaningful (values equal to defaults).
 func randomParams(f *fx.Fixture, r *rand.Rand, at abs.Path, ordered bool) dread.Params {
 	var p dread.Params
-	all := relSchemaPaths(f, at, 3, nil)
+	all := relSchemaPaths(f, at, 5, nil)
+	// two selector paths that differ only in the last name (candidates for the group syntax)
+	siblings := func() [][]string {
+		a := all[r.Intn(len(all))]
+		var sib [][]string
+		for _, b := range all {
+			if len(b) == len(a) && len(a) > 1 && strings.Join(b[:len(b)-1], "/") == strings.Join(a[:len(a)-1], "/") && b[len(b)-1] != a[len(a)-1] {
+				sib = append(sib, b)
+			}
+		}
+		if len(sib) == 0 {
+			return pick(r, all, 2)
+		}
+		return [][]string{a, sib[r.Intn(len(sib))]}
+	}
 	lists := relSchemaPaths(f, at, 3, map[string]bool{"list": true})
 	nparams := 1 + r.Intn(2)
 	if r.Intn(6) == 0 {
@@ -61,7 +79,11 @@ func randomParams(f *fx.Fixture, r *rand.Rand, at abs.Path, ordered bool) dread.
 		case 1:
 			p.Depth = 1 + r.Intn(4)
 		case 2:
-			p.Fields = pick(r, all, 1+r.Intn(2))
+			if len(all) > 0 && r.Intn(2) == 0 {
+				p.Fields = siblings()
+			} else {
+				p.Fields = pick(r, all, 1+r.Intn(2))
+			}
 		case 3:
 			p.XFields = pick(r, all, 1+r.Intn(2))
 		case 4:
@@ -99,7 +121,39 @@ func randomParams(f *fx.Fixture, r *rand.Rand, at abs.Path, ordered bool) dread.
 var invalidQueries = []string{"depth=abc", "depth=-1", "depth=0", "content=bogus", "with-defaults=bogus", "fc.range=ifs", "fc.range=ifs!x-y",
 	"fc.range=ifs!1-x", "fc.max-node-count=abc", "depth=1.5", "depth=", "content="}
 
+// rangeEndReading asks the library once how it reads the end row of an fc.range window (the
+// property and the documentation do not say): rows 0-1 of a three row list are one row
+// (exclusive) or two (inclusive).  The answer is a constant of the whole run, so that a mismatch
+// is judged the same way when its case is executed again.
+func rangeEndReading() (string, error) {
+	m, err := parser.LoadModuleFromString(nil, "module rp { namespace \"urn:rp\"; prefix rp; revision 2024-01-01; list l { key k; leaf k { type string; } } }")
+	if err != nil {
+		return "", err
+	}
+	data := map[string]interface{}{"l": []map[string]interface{}{{"k": "a"}, {"k": "b"}, {"k": "c"}}}
+	b := node.NewBrowser(m, &nodeutil.Node{Object: data})
+	sel, err := b.Root().Find("?fc.range=l!0-1")
+	if err != nil || sel == nil {
+		return "", fmt.Errorf("range probe: %v", err)
+	}
+	out, err := nodeutil.WriteJSON(sel)
+	if err != nil {
+		return "", err
+	}
+	switch strings.Count(out, "\"k\"") {
+	case 1:
+		return "false", nil
+	case 2:
+		return "true", nil
+	}
+	return "", fmt.Errorf("range probe: rows 0-1 of three rows read as %s", out)
+}
+
 func readStage(fname string, r *rand.Rand, n int) (core.Stage, error) {
+	incl, err := rangeEndReading()
+	if err != nil {
+		return core.Stage{}, err
+	}
 	f, err := fx.Load(fname)
 	if err != nil {
 		return core.Stage{}, err
@@ -111,7 +165,7 @@ func readStage(fname string, r *rand.Rand, n int) (core.Stage, error) {
 	if fname == "S0" || fname == "S1" {
 		stores = append(stores, "nstruct")
 	}
-	return core.Stage{Name: fname, EvalMod: "EvalRead", EvalEnv: map[string]string{"SCHEMA": f.DSFile},
+	return core.Stage{Name: fname, EvalMod: "EvalRead", EvalEnv: map[string]string{"SCHEMA": f.DSFile, "INCL": incl},
 		Cases: func(emit func(core.Case)) {
 			gp := gen.Default
 			gp.PList, gp.PCont, gp.PLeaf, gp.MaxEntries = 0.85, 0.8, 0.7, 4
@@ -173,7 +227,7 @@ func planC07(tier string, seed int64) (*core.Plan, error) {
 		},
 		Assumptions: []string{"the result is captured with Selection.UpsertInto into a map-backed store and read back directly", "containers shown empty under content=config|nonconfig are not stated by the property (admitted)", "fc.range end row: inclusive or exclusive, one reading per evaluated trace"},
 	}
-	for _, fname := range []string{"S3", "S0", "S1"} {
+	for _, fname := range []string{"S3", "S0", "S1", "S7"} {
 		st, err := readStage(fname, r, n/3)
 		if err != nil {
 			return nil, err
